@@ -265,6 +265,8 @@ def _check_tree(data: dict, lab: Labels) -> None:
             break
         c, fn, i, p = deep[sel % len(deep)]
         how = (sel // 7) % 3
+        if type(p).__name__ == "LDyn":
+            how = 2  # (replace_with needs static type info of the parent's field: none for LDyn)
         try:
             with warnings.catch_warnings():
                 warnings.simplefilter("ignore", DeprecationWarning)
